@@ -151,7 +151,10 @@ fn first_target_failure(res: &CaseResult, target: &str, known: &Known) -> Option
 /// structure-aware shrinking of a failing case: delete operations, shorten payloads, lower
 /// numbers and geometry, while the same property still fails
 pub fn shrink_case(case: &Case, run: &RunFn, target: &str, known: &Known) -> (Case, Failure) {
-    shrink_case_budget(case, run, target, known, 4000)
+    // fewer attempts on big screens, where every attempt is expensive
+    let cells = (case.cols as usize) * (case.lines as usize);
+    let budget = (12_000_000 / ((cells + 300) * (case.ops.len() + 5))).clamp(100, 4000);
+    shrink_case_budget(case, run, target, known, budget)
 }
 
 pub fn shrink_case_budget(case: &Case, run: &RunFn, target: &str, known: &Known, budget: usize) -> (Case, Failure) {
@@ -374,7 +377,7 @@ pub fn gen_worker(
     let mut cfg = Config::default();
     cfg.cases = cases.min(u32::MAX as u64) as u32;
     cfg.failure_persistence = None::<Box<FileFailurePersistence>>.map(|b| b as Box<dyn proptest::test_runner::FailurePersistence>);
-    cfg.max_shrink_iters = 3000;
+    cfg.max_shrink_iters = 600;
     cfg.rng_algorithm = RngAlgorithm::ChaCha;
     cfg.rng_seed = RngSeed::Fixed(0);
     let rng = proptest::test_runner::TestRng::from_seed(RngAlgorithm::ChaCha, &seed_for(seed, target, sub, worker));
